@@ -298,4 +298,105 @@ theorem parseOne_order (cfg : Cfg) (fs : FS) (R0 : Registry) (fuel : Nat) (stack
       rw [hlo, ← h.2]; exact hsim
     · cases h
 
+/-! ### `finishOrder` is `loadOrder` without the `@extern` events -/
+
+/-- one load line in `finishOrder` -/
+def finishStep (cfg : Cfg) (fs : FS) (rec : APath → APath → List APath × List APath → List APath × List APath)
+    (spelled : APath) (acc : List APath × List APath) (l : LoadAt) : List APath × List APath :=
+  if !l.isImport then acc else
+  match findFile cfg fs spelled (filepathText l.lit) with
+  | some (c, p) => if acc.1.contains p then acc else rec p c.path (acc.1 ++ [p], acc.2)
+  | none => acc
+
+theorem finishOrder_succ (cfg : Cfg) (fs : FS) (n : Nat) (file spelled : APath) (acc : List APath × List APath) :
+    finishOrder cfg fs (n + 1) file spelled acc =
+      match fs.get file with
+      | some (.idl text) =>
+        match parseText text with
+        | none => acc
+        | some f =>
+          ((f.loads.foldl (finishStep cfg fs (finishOrder cfg fs n) spelled) acc).1,
+           (f.loads.foldl (finishStep cfg fs (finishOrder cfg fs n) spelled) acc).2 ++ [file])
+      | _ => acc := by
+  obtain ⟨v, d⟩ := acc
+  simp only [finishOrder]
+  cases hf : fs.get file with
+  | none => rfl
+  | some fc =>
+    cases fc with
+    | idl text =>
+      simp only []
+      cases hp : parseText text with
+      | none => rfl
+      | some f =>
+        simp only []
+        have key : ∀ (F G : List APath × List APath → LoadAt → List APath × List APath), (∀ a l, F a l = G a l) →
+            ((f.loads.foldl F (v, d)).1, (f.loads.foldl F (v, d)).2 ++ [file])
+              = ((f.loads.foldl G (v, d)).1, (f.loads.foldl G (v, d)).2 ++ [file]) := by
+          intro F G h
+          rw [show F = G from funext fun a => funext fun l => h a l]
+        apply key
+        intro a l
+        simp only [finishStep]
+        generalize findFile cfg fs spelled (filepathText l.lit) = x
+        cases x with
+        | none => rfl
+        | some cp => rfl
+    | ext d => simp only []
+    | badExt => simp only []
+    | notText pos => simp only []
+
+def projAcc (acc : OrderAcc) : List APath × List APath := (acc.1, acc.2.filterMap LoadEvent.file?)
+
+theorem projAcc_step (cfg : Cfg) (fs : FS) (recL : APath → APath → OrderAcc → OrderAcc)
+    (recF : APath → APath → List APath × List APath → List APath × List APath)
+    (hrec : ∀ p s a, projAcc (recL p s a) = recF p s (projAcc a)) (spelled : APath) (acc : OrderAcc) (l : LoadAt) :
+    projAcc (loadStep cfg fs recL spelled acc l) = finishStep cfg fs recF spelled (projAcc acc) l := by
+  unfold loadStep finishStep
+  cases hfind : findFile cfg fs spelled (filepathText l.lit) with
+  | none => cases l.isImport <;> simp
+  | some cp =>
+    obtain ⟨c, p⟩ := cp
+    cases himp : l.isImport with
+    | true =>
+      have hr := hrec p c.path (acc.1 ++ [p], acc.2)
+      by_cases hm : p ∈ acc.1
+      · simp [hm, projAcc]
+      · simpa [hm, projAcc] using hr
+    | false =>
+      simp only [Bool.not_false, if_true, Bool.false_eq_true, if_false]
+      split
+      · simp [projAcc, LoadEvent.file?]
+      · rfl
+
+theorem projAcc_foldl (cfg : Cfg) (fs : FS) (recL : APath → APath → OrderAcc → OrderAcc)
+    (recF : APath → APath → List APath × List APath → List APath × List APath)
+    (hrec : ∀ p s a, projAcc (recL p s a) = recF p s (projAcc a)) (spelled : APath) (loads : List LoadAt) (acc : OrderAcc) :
+    projAcc (loads.foldl (loadStep cfg fs recL spelled) acc) = loads.foldl (finishStep cfg fs recF spelled) (projAcc acc) := by
+  induction loads generalizing acc with
+  | nil => rfl
+  | cons l ls ih => simp only [List.foldl_cons]; rw [ih, projAcc_step cfg fs recL recF hrec]
+
+/-- `finishOrder` is `loadOrder` with the `@extern` events dropped. -/
+theorem projAcc_loadOrder (cfg : Cfg) (fs : FS) (fuel : Nat) (file spelled : APath) (acc : OrderAcc) :
+    projAcc (loadOrder cfg fs fuel file spelled acc) = finishOrder cfg fs fuel file spelled (projAcc acc) := by
+  induction fuel generalizing file spelled acc with
+  | zero => simp [loadOrder, finishOrder]
+  | succ n ih =>
+    rw [finishOrder_succ]
+    simp only [loadOrder]
+    cases hf : fs.get file with
+    | none => rfl
+    | some fc =>
+      cases fc with
+      | idl text =>
+        simp only []
+        cases hp : parseText text with
+        | none => rfl
+        | some f =>
+          simp only []
+          rw [← projAcc_foldl cfg fs (loadOrder cfg fs n) (finishOrder cfg fs n) (fun p s a => ih p s a) spelled f.loads acc]
+          simp [projAcc, LoadEvent.file?]
+      | _ => rfl
+
 end Pydjinni.Front
